@@ -104,7 +104,7 @@ impl<'tcx> Cx<'tcx> {
 		}
 		match t.kind() {
 			ty::Adt(def, _) => Some(self.path(def.did())),
-			ty::Closure(did, _) => Some(self.path(*did)),
+			ty::Closure(did, _) | ty::Coroutine(did, _) => Some(self.path(*did)),
 			_ => None,
 		}
 	}
@@ -169,7 +169,7 @@ impl<'tcx> Cx<'tcx> {
 								}
 							}
 						}
-						ty::Closure(did, _) => {
+						ty::Closure(did, _) | ty::Coroutine(did, _) | ty::CoroutineClosure(did, _) => {
 							adt = self.path(*did);
 						}
 						ty::Tuple(_) => adt = "()".to_string(),
